@@ -46,7 +46,7 @@ Do(op) == LET r == Apply(Dev, st, op) IN
 FreshHandle(op) == LET r == Apply(Dev, st, op) IN
                    r.res = "ok" /\ r.st.hs[Len(r.st.hs)] \notin {hs[i] : i \in 1..NH} /\ r.st.hs[Len(r.st.hs)] \in DOMAIN H
 InBounds(op) == LET fs == PathOf(op.name, op.idx) IN
-                /\ SetMaxIdx(fs) < MaxArr
+                /\ (SetMaxIdx(fs) < MaxArr \/ SetMaxIdx(fs) > DefaultMaxIdx)      \* (beyond MaxIdx: an error, nothing grows)
                 /\ Cardinality(DOMAIN H) + SetGrowth(Dev, H, hs[op.h], fs) <= MaxNodes
 \* TreeOnly: a config is attached at one place at most (re-attach allowed, aliasing not)
 IsRootNode(id) == H[id].par = NoId /\ \A p \in DOMAIN H : ~Stores(H, p, H[id].fld, id)
